@@ -263,6 +263,8 @@ def to_model_ops(comps, executed, with_solve=False):
             ops.append(["connect", e[1], pid(e[1], e[2]), e[3], pid(e[3], e[4])]); idx.append(k)
         elif kind in ("cut", "remove"):
             ops.append([kind, e[1]]); idx.append(k)
+        elif kind == "put":
+            ops.append(["put", e[1], pid(e[1], e[2]), e[3], pid(e[3], e[4])]); idx.append(k)
         elif kind == "prune":
             # prune of a flat solver = remove_structure on every pinless model, in declaration order
             for j, c in enumerate(e[1]):
@@ -350,7 +352,7 @@ def model_compare(ctx, comps, executed, snaps, name, replay):
             break
         real = canon_real(snaps[k], comps, names)
         mod = canon_model(step["state"])
-        mod["st"] = mod["st"][:len(comps)]          # the spare objects of rejected puts are not structures of the harness
+        mod["st"] = mod["st"][:len(real["st"])]     # objects placed later by put(), and the spare ones of rejected puts, are not yet structures of the harness
         if real != mod:
             diff = [key for key in real if real[key] != mod[key]]
             ctx.disagreement(name, f"after {executed[k]}: model and implementation differ in {diff}", replay)
